@@ -60,7 +60,10 @@ fn tree(idx: usize, ev: Ev, step: usize) -> TreeSpec {
         Ev::ShortLived => { ca1.mft_ee_not_after = 2; }
         _ => { }
     }
-    let mut ca2 = CaSpec::new("ca2", 2, &h[2], "repo");
+    // CA2's URIs spell the host name with capitals (host names are
+    // case-insensitive; the cache keeps them lower-case)
+    let ca2_host = h[2].replace("ca2x", "Ca2X").replace(".c40.example", ".C40.Example");
+    let mut ca2 = CaSpec::new("ca2", 2, &ca2_host, "repo");
     ca2.v4 = vec![(Ipv4Addr::new(10, 2, 0, 0), 16)];
     ca2.asns = vec![(64510, 64519)];
     ca2.objs = vec![ObjSpec::roa("r2", 64510, "10.2.0.0", 16, 16)];
@@ -77,8 +80,9 @@ const PER_GROUP: usize = 4;
 
 /// TA plus GROUPS x PER_GROUP CAs: group g lives in its own rsync module
 /// (even g) or RRDP repository (odd g); in each group one CA (a different
-/// position per group) has a long-lived manifest certificate, the others
-/// expire after SHORT_LIFE seconds.
+/// position per group) is long-lived, one has a manifest that goes stale
+/// after SHORT_LIFE seconds under a manifest certificate that stays valid,
+/// and the manifest certificates of the others expire after SHORT_LIFE.
 fn groups_tree(idx: usize) -> TreeSpec {
     let h = hosts(idx);
     let mut ta = CaSpec::new("ta0", 0, &h[0], "repo");
@@ -94,7 +98,11 @@ fn groups_tree(idx: usize) -> TreeSpec {
             ca.asns = vec![(64500 + n as u32, 64500 + n as u32)];
             ca.objs = vec![ObjSpec::roa("r", 64500 + n as u32, &format!("10.{}.{j}.0", 100 + g), 24, 24)];
             if g % 2 == 1 { ca.rpki_notify = Some(format!("https://{}/g{g}/notification.xml", h[3])); }
-            if j != g % PER_GROUP { ca.mft_ee_not_after = SHORT_LIFE; }
+            // one CA per group lives long; the next one's manifest and CRL
+            // go stale after SHORT_LIFE while its manifest certificate
+            // stays valid; the manifest certificates of the others expire
+            if j == (g + 1) % PER_GROUP { ca.mft_next_update = SHORT_LIFE; ca.crl_next_update = SHORT_LIFE; }
+            else if j != g % PER_GROUP { ca.mft_ee_not_after = SHORT_LIFE; }
             ta.children.push(ca);
         }
     }
@@ -173,6 +181,7 @@ fn run_case(gen: &Gen, dir: PathBuf, idx: usize, c: &CaseSpec) -> Result<String,
     );
     let rel = |p: PathBuf| p.strip_prefix(&paths_config.cache_dir).map(|x| x.to_path_buf()).unwrap_or(p);
     let mut uses: BTreeMap<PathBuf, PathBuf> = BTreeMap::new();
+    let mut point_of: BTreeMap<String, PathBuf> = BTreeMap::new();
     let mut prev_image: Option<(Image, Time)> = None;
     for (step, ev) in c.events.iter().enumerate() {
         let last = step + 1 == c.events.len();
@@ -194,6 +203,7 @@ fn run_case(gen: &Gen, dir: PathBuf, idx: usize, c: &CaseSpec) -> Result<String,
             let Ok(mft) = rpki::uri::Rsync::from_str(&ca.mft_uri) else { continue };
             let notify = ca.rpki_notify.as_ref().and_then(|n| rpki::uri::Https::from_str(n).ok());
             let point = rel(path_fns.0.verif_point_path(notify.as_ref(), &mft));
+            point_of.insert(ca.name.clone(), point.clone());
             let copy = match &notify {
                 Some(n) => path_fns.1.as_ref().and_then(|c| c.verif_repository_path(n)),
                 None => path_fns.2.as_ref().map(|c| c.verif_paths(&mft).0),
@@ -301,6 +311,21 @@ fn run_case(gen: &Gen, dir: PathBuf, idx: usize, c: &CaseSpec) -> Result<String,
                 return Err(("unexpired-point-unreadable".into(), format!("history {:?}, run {}: stored point {} no longer loads", c.events, step + 1, p.display())))
             }
         }
+        // by construction (not by what the store wrote down): the points of
+        // the Groups CAs whose manifest certificate lives for days
+        if matches!(ev, Ev::Groups | Ev::GroupsLater) {
+            for g in 0..GROUPS { for j in 0..PER_GROUP {
+                if j != g % PER_GROUP && j != (g + 1) % PER_GROUP { continue }
+                let name = format!("g{g}k{j}");
+                let Some(point) = point_of.get(&name) else { continue };
+                if StoredPoint::load_quietly(clean_cache.join(point)).and_then(|p| p.manifest().map(|_| ())).is_none() {
+                    return Err(("unexpired-point-removed".into(), format!(
+                        "history {:?}, run {}: the stored point of {name} ({}) is gone although its manifest certificate is valid for days{}",
+                        c.events, step + 1, point.display(), if j == (g + 1) % PER_GROUP { " (its manifest has passed nextUpdate)" } else { "" }
+                    )))
+                }
+            }}
+        }
         // ... and so must the collector copy each unexpired stored point was taken from
         let mut copies = 0;
         for (point, copy) in &uses {
@@ -365,10 +390,11 @@ pub fn run(ctx: &Ctx) -> Report {
         copy (rsync module directory / RRDP archive, located with the real \
         path functions) of every unexpired stored point still exists if the \
         dirty twin has it; plus an expiry history: 4 groups (2 rsync \
-        modules, 2 RRDP repositories) of 4 sibling CAs each, three of \
-        which have manifest certificates living 3 s and one (a different \
-        position in each group) days, run once and, after a real wait, \
-        again; non-trivial = \
+        modules, 2 RRDP repositories) of 4 sibling CAs each: one lives \
+        for days, one has a manifest going stale after 3 s under a \
+        certificate valid for days, two have manifest certificates living \
+        3 s (positions rotate per group); run once and, after a real \
+        wait, again - the points of the first two kinds must remain; non-trivial = \
         histories in which something moves, disappears or fails".into();
     rep.bound = format!("{} histories", cases.len());
     let threads = std::env::var("ETREE_THREADS").ok().and_then(|s| s.parse().ok()).unwrap_or(8);
